@@ -99,7 +99,7 @@ def stepStructural (cx : Ctx) (op : String) (args : List String) : Option MOut :
     let ev ← parseEvents ev
     -- a zero-sized element type has unbounded capacity: a claimed length the driver cannot materialise as spare cells is
     -- left unmodelled (`M ?`); the oracle still judges the step
-    if cx.elem = .zst ∧ l > 100000 then none
+    if cx.elem.isZst ∧ l > 100000 then none
     pure ⟨l, ev.map (·.map cx.v)⟩
   -- drains: the tokens come from stepping the drain model along the word; state, outcome and ledger from the history operation
   let rowToks (d : DrainRow Nat) (word : String) : List String × List Bool :=
@@ -113,9 +113,12 @@ def stepStructural (cx : Ctx) (op : String) (args : List String) : Option MOut :
   match op, args with
   | "new", [c, r] => do
     let c ← nat? c; let r ← nat? r
+    if c * r > 131072 ∧ c * r < WORD ∧ cx.elem.isZst then none else
     pure (viaHistory cx (.newArr c r 0))
   | "init", [c, r, v] => do
     let c ← nat? c; let r ← nat? r; let v ← nat? v
+    -- a huge array (zero-sized elements only) is not materialised: no prediction, the oracle judges the numbers (`specHuge`)
+    if c * r > 131072 ∧ c * r < WORD then none else
     pure (viaHistory cx (.initArr c r (cx.v v)))
   | "from_vec", [c, r, l] | "from_box", [c, r, l] => do
     let c ← nat? c; let r ← nat? r; let l ← parseList l
@@ -211,7 +214,7 @@ def stepConv (cx : Ctx) (rc : Recv) (op : String) (args : List String) : Option 
     pure { cx.same with toks := [toString cl.numCols, toString cl.numRows, fmtList cl.data,
                                   if TD.eqDerived (fun x y => x == y) cl t then "eq=1" else "eq=0",
                                   if TD.hashFeed (fun x => [x]) cl = TD.hashFeed (fun x => [x]) t then "hasheq=1" else "hasheq=0", "indep=1"],
-                         drops := cx.dr (cl.data.map fun v => if cx.elem = .zst then 0 else v + 1) }
+                         drops := cx.dr (cl.data.map fun v => if cx.elem.isZst then 0 else v + 1) }
   | "eq", [c, r, l] => do
     let c ← nat? c; let r ← nat? r; let l ← parseList l
     -- `==` and the hash digest through the transcriptions of the derived impls (`TD.eqDerived`, `TD.hashFeed`, C20): the
